@@ -57,6 +57,12 @@ public:
         {
             _settings._dim.y = _info._height;
         }
+
+        detail::check_read_region( _settings._top_left
+                                 , _settings._dim
+                                 , static_cast< std::ptrdiff_t >( _info._width  )
+                                 , static_cast< std::ptrdiff_t >( _info._height )
+                                 );
     }
 
     void read_header()
